@@ -324,7 +324,13 @@ pub fn all_families(cfg: &FamCfg, sink: &mut Sink) {
         if k < 2 {
             continue;
         }
-        for pat in [Pat::Ints, Pat::Alt] {
+        // `obj0`: the first object of the environment is moved to position 0 before the operation (the
+        // registers of variable 0 are what x86-64 borrows for idiv; with `Alt` position 3 — AArch64's
+        // borrowed scratch — holds an object already)
+        for (pat, obj0) in [(Pat::Ints, false), (Pat::Alt, false), (Pat::Alt, true), (Pat::Clos, true)] {
+            if obj0 && k < 4 {
+                continue;
+            }
             for op in ops() {
                 for (ai, av) in op_vals.iter().enumerate() {
                     if !cfg.thorough && ai % 3 != 0 && k != 7 && k != 14 {
@@ -352,12 +358,18 @@ pub fn all_families(cfg: &FamCfg, sink: &mut Sink) {
                                 if i != j {
                                     order.swap(p1pos, pj);
                                 }
+                                if obj0 {
+                                    if let Some(o) = order.iter().position(|v| b.ctx.iter().any(|x| x.var.id == *v && x.chi != Chirality::Ext)) {
+                                        let v = order.remove(o);
+                                        order.insert(0, v);
+                                    }
+                                }
                                 b.arrange(&order);
                                 let a = 1;
                                 let c = if i == j { 1 } else { 2 };
                                 b.op(a, opc.clone(), c);
                                 case(
-                                    format!("op/{}/k{k}/{}/{i}-{j}/{x}_{y}", op_name(&opc), pat.name()),
+                                    format!("op/{}/k{k}/{}{}/{i}-{j}/{x}_{y}", op_name(&opc), pat.name(), if obj0 { "-obj0" } else { "" }),
                                     t,
                                     epilogue(t, b, wp),
                                     vec![],
